@@ -925,16 +925,23 @@ class RouteGraph:
 
     def __init__(self, spec):
         self.d = {x['n']: x for x in spec['devices']}
-        self.down = {n: [] for n in self.d}
-        for x in spec['devices']:
-            for u in x.get('up', ()):
-                self.down[u].append(x['n'])
+        self.rewire({x['n']: x.get('up', ()) for x in spec['devices']})
         self.group_in = {}
         self.group_out = {}
         for x in spec['devices']:
             if x['k'] == 'group':
                 self.group_in[x['n']] = list(x.get('inputs') or x['members'][:1])
                 self.group_out[x['n']] = list(x.get('outputs') or x['members'][-1:])
+
+    def rewire(self, wiring):
+        """(re)build the downstream lists from {device: its upstreams}; devices not mentioned keep theirs"""
+        self.up = dict(getattr(self, 'up', {}))
+        for n, ups in wiring.items():
+            self.up[n] = list(ups)
+        self.down = {n: [] for n in self.d}
+        for n, ups in self.up.items():
+            for u in ups:
+                self.down[u].append(n)
 
     def exits(self, name, stack):
         """[(next device, stack)] when a part leaves device `name`."""
@@ -954,6 +961,7 @@ class RouteGraph:
 class C08Monitor(Monitor):
     def start(self, f):
         self.g = RouteGraph(f.spec)
+        self.wiring_seen = None
         self.state = {}      # leaf id -> [validated length, stack tuple]
         self.item_len = {}   # item id -> validated length (gate predicates)
         self.item_ord = {}
@@ -1036,8 +1044,6 @@ class C08Monitor(Monitor):
 
     def after_step(self, f, e):
         lib = f.lib
-        if f.rewired:
-            return
         self.prev_items, self.now_items = self.now_items, set()
         for lid in f.where:
             lf = f.leaf_by_id.get(lid)
@@ -1068,6 +1074,11 @@ class C08Monitor(Monitor):
                            f'part id {recs[k][1]}', 'collected_order')
                 k += 1
             self.sink_seen[n] = k
+        if f.rewired and f.wiring != self.wiring_seen:
+            # set_upstream() took effect in this dispatch (it moves nothing itself): later hops follow the new connections
+            self.wiring_seen = {n: list(u) for n, u in f.wiring.items()}
+            self.g.rewire(self.wiring_seen)
+            f.bump(f.stats['reach'], 'routes_checked_after_rewire')
 
     def check_holders(self, f, lf):
         """(b) holders observed by the census == history filtered to holding devices."""
@@ -1323,17 +1334,19 @@ class C01FloorMonitor(Monitor):
 # ===========================================================================
 # C08.f among parallel single-slot candidates the one idle longest receives the part
 # ===========================================================================
-def probe_candidates(f, holder, item, cands):
-    """One forked child per candidate: would it accept the part if it were offered alone?"""
+def probe_candidates(f, holder, item, cands, heads=None):
+    """One forked child per candidate: would it accept the part if it were offered alone?  (heads: candidate -> the
+    pass-through controller in front of it through which the holder reaches it)"""
     out = []
     for c in cands:
+        entry = (heads or {}).get((holder, c), c)
         r, w = os.pipe()
         pid = os.fork()
         if pid == 0:
             try:
                 os.close(r)
                 try:
-                    ok = bool(f.dev[c].give_part(item))
+                    ok = bool(f.dev[entry].give_part(item))
                 except BaseException:
                     ok = False
                 os.write(w, b'1' if ok else b'0')
@@ -1376,7 +1389,8 @@ class C08FMonitor(Monitor):
             src_h = None
             for h in holders:
                 names = [f.name_of.get(id(d)) for d in item.routing_history]
-                if len(names) >= 2 and names[-1] == x and names[-2] == h:
+                tail = [h] + self.chain[(h, x)] + [x]
+                if names[-len(tail):] == tail:
                     src_h = h
             x_since = tmp_empty.get(x)
             # after accepting, a zero-cycle sink is empty again at `now`; anything else is busy
@@ -1389,7 +1403,7 @@ class C08FMonitor(Monitor):
             if not cands:
                 continue
             f.bump(f.stats['reach'], 'post_step_choice_probes')
-            acc = probe_candidates(f, src_h, item, cands)
+            acc = probe_candidates(f, src_h, item, cands, self.head)
             if acc:
                 f.fail('C08.f', f'{src_h} handed {item.name} to {x} (empty since {x_since}) although {acc} stayed idle, would '
                        f'have accepted it and has been empty and operational since {[self.idle_since[y] for y in acc]}',
@@ -1403,13 +1417,30 @@ class C08FMonitor(Monitor):
         self.post_seen = 0
         self.pending = None
         g = RouteGraph(f.spec)
+        # holder -> its parallel single-slot candidates: connected directly or through a chain of pass-through
+        # controllers (gates / plain PartFlowControllers outside groups) that each have exactly one downstream
         self.direct = {}
+        self.head = {}
+        self.chain = {}
         for n in f.holders:
             if f.kind[n] == 'sink' or 'in' in f.dspec[n]:
                 continue
-            dn = g.down[n]
-            if len(dn) >= 2 and all(f.kind.get(d) in self.SINGLE and 'in' not in f.dspec[d] for d in dn):
-                self.direct[n] = list(dn)
+            terms = []
+            for d in g.down[n]:
+                x, chain = d, []
+                while f.kind.get(x) == 'gate' and 'in' not in f.dspec[x] and len(g.down[x]) == 1:
+                    chain.append(x)
+                    x = g.down[x][0]
+                if f.kind.get(x) in self.SINGLE and 'in' not in f.dspec[x]:
+                    terms.append((x, d, chain))
+                else:
+                    terms = None
+                    break
+            if terms and len(terms) >= 2 and len({t[0] for t in terms}) == len(terms):
+                self.direct[n] = [t[0] for t in terms]
+                for x, d, chain in terms:
+                    self.head[(n, x)] = d
+                    self.chain[(n, x)] = chain
 
     def before_step(self, f):
         self.pending = None
@@ -1426,8 +1457,10 @@ class C08FMonitor(Monitor):
         cands = [c for c in self.direct[h] if self.idle_since[c] is not None]
         if len(cands) < 2:
             return
-        acc = probe_candidates(f, h, ready, cands)
+        acc = probe_candidates(f, h, ready, cands, self.head)
         f.bump(f.stats['reach'], 'handovers_with_choice_probed')
+        if any(self.chain[(h, c)] for c in cands):
+            f.bump(f.stats['reach'], 'choice_through_pass_through_controller')
         if len(acc) >= 2:
             self.pending = (h, ready, acc, {c: (self.idle_since[c], self.empty_since[c]) for c in acc})
 
